@@ -99,13 +99,151 @@ def aaTipStateCode (o : Nat) : Option Nat :=
 def aaPartial (useAmb : Bool) (c : Char) : Option (List Nat) := aaPartialCode useAmb c.toNat
 def aaTipState (c : Char) : Option Nat := aaTipStateCode c.toNat
 
-/-- tip vector of a one-character symbol -/
-def symPartial (aa : Bool) (useAmb : Bool) : Sym → Option (List Nat)
-  | [c] => if aa then aaPartial useAmb c else nucPartial useAmb c
+/-! ### `CodonDataType` (tables of every shipped genetic code in the generated file) -/
+
+/-- `np.array([int(codon == '*') for codon in self.table]).cumsum()[e]` -/
+def stopCount (table : List Nat) (e : Nat) : Nat := ((table.take (e + 1)).filter (· == 42)).length
+
+/-- `n1 * 16 + n2 * 4 + n3` of a triplet of code points, when all three letters are plain (`NUCLEOTIDE_STATES ≤ 3`);
+    `none` = `IndexError` (fewer than three letters, or a code point beyond the table) -/
+def tripletIndex (sym : List Nat) : Option (Option Nat) :=
+  match sym with
+  | o1 :: o2 :: o3 :: _ =>
+    match nucEncodingCode o1, nucEncodingCode o2, nucEncodingCode o3 with
+    | some n1, some n2, some n3 =>
+      if n1 ≤ 3 ∧ n2 ≤ 3 ∧ n3 ≤ 3 then some (some (n1 * 16 + n2 * 4 + n3)) else some none
+    | _, _, _ => none
   | _ => none
 
-def symTipState (aa : Bool) : Sym → Option Nat
-  | [c] => if aa then aaTipState c else nucTipState c
-  | _ => none
+/-- `CodonDataType.encoding`: `65` for a triplet with a non-plain letter, else the triplet index minus the number of
+    stop codons up to and including it -/
+def codonEncoding (table : List Nat) (sym : List Nat) : Option Nat :=
+  match tripletIndex sym with
+  | some (some e) => some (e - stopCount table e)
+  | some none => some 65
+  | none => none
+
+/-- `state_count` as `AbstractDataType.__init__` sets it: the number of triplets `triplets[:64]` whose table entry is
+    not `*` (it overrides the `NUMBER_OF_CODONS` entry stored first) -/
+def codonStateCount (table : List Nat) : Nat :=
+  ((TTGen.C01.codonTriplets.take 64).filter fun t =>
+    match tripletIndex t with
+    | some (some e) => table.getD e 42 != 42
+    | _ => false).length
+
+/-- `CodonDataType.partial` (`use_ambiguities` is ignored by the code); `none` = `IndexError` of `p[encoding] = 1.0` -/
+def codonPartial (table : List Nat) (sym : List Nat) : Option (List Nat) :=
+  match codonEncoding table sym with
+  | some e =>
+    let sc := codonStateCount table
+    if e = 65 then some (List.replicate sc 1)
+    else if e < sc then some ((List.range sc).map fun j => if j = e then 1 else 0)
+    else none
+  | none => none
+
+def codonTipState (table : List Nat) (sym : List Nat) : Option Nat :=
+  (codonEncoding table sym).map fun e => min e (codonStateCount table)
+
+/-! ### `GeneralDataType` (codes and ambiguity map supplied by the user) -/
+
+/-- position of a symbol in a list (`dict` lookup `{code: idx}`) -/
+def codeIndex (codes : List Sym) (s : Sym) : Option Nat :=
+  if s ∈ codes then some (codes.idxOf s) else none
+
+/-- `self.codes[sym]` after `__init__`: a base code ↦ its index; an ambiguity key ↦ the indices of the codes it
+    lists (the ambiguity entry OVERWRITES a base code of the same name); `none` = not a key.
+    `some none` = the constructor would have raised (`KeyError`: a listed symbol is not a base code). -/
+def generalCodes (codes : List Sym) (ambs : List (Sym × List Sym)) (s : Sym) : Option (Option (List Nat)) :=
+  match ambs.find? (fun a => a.1 == s) with
+  | some a => some (a.2.mapM (codeIndex codes))
+  | none => (codeIndex codes s).map fun i => some [i]
+
+/-- `GeneralDataType.partial`: indicator of the index set of a known symbol, all ones otherwise -/
+def generalPartial (codes : List Sym) (ambs : List (Sym × List Sym)) (s : Sym) : Option (List Nat) :=
+  match generalCodes codes ambs s with
+  | some (some idx) => some ((List.range codes.length).map fun j => if j ∈ idx then 1 else 0)
+  | some none => none
+  | none => some (List.replicate codes.length 1)
+
+/-- `GeneralDataType.encoding`: `_encoding.get(string, state_count)`; `_encoding` holds the base codes and the
+    ALIASES (ambiguity keys listing exactly one code) -/
+def generalEncoding (codes : List Sym) (ambs : List (Sym × List Sym)) (s : Sym) : Nat :=
+  match ambs.find? (fun a => a.1 == s) with
+  | some (_, [t]) => (codeIndex codes t).getD codes.length
+  | _ => (codeIndex codes s).getD codes.length
+
+/-! ### `SitePattern.indices`: column selection `sequence[index]`, `index` an `int` or a `slice` -/
+
+inductive Idx where
+  | at (i : Int)
+  | slice (start stop step : Option Int)
+deriving Repr, DecidableEq
+
+/-- `s[i]` for an `int` (negative counts from the end); `none` = `IndexError` -/
+def pyIndex (len : Nat) (i : Int) : Option Nat :=
+  let j := if i < 0 then i + len else i
+  if 0 ≤ j ∧ j < len then some j.toNat else none
+
+/-- positions selected by `s[start:stop:step]` (`slice.indices(len)`); `none` = `ValueError` (step 0) -/
+def pySlice (len : Nat) (start stop step : Option Int) : Option (List Nat) :=
+  let st := step.getD 1
+  if st = 0 then none else
+  let n : Int := len
+  let lower : Int := if st < 0 then -1 else 0
+  let upper : Int := if st < 0 then n - 1 else n
+  let clampv (v : Int) : Int := if v < 0 then max (v + n) lower else min v upper
+  let a : Int := match start with | none => (if st < 0 then upper else lower) | some v => clampv v
+  let b : Int := match stop with | none => (if st < 0 then lower else upper) | some v => clampv v
+  let cnt : Nat := if st > 0 then (if a < b then ((b - a - 1) / st + 1).toNat else 0)
+                   else (if b < a then ((a - b - 1) / (-st) + 1).toNat else 0)
+  some ((List.range cnt).map fun (k : Nat) => (a + (k : Int) * st).toNat)
+
+/-- `sequences_new[idx] += sequence[index]` over all indices -/
+def selectCols {β : Type} (idx : List Idx) (s : List β) : Option (List β) :=
+  (idx.mapM fun (ix : Idx) => match ix with
+    | Idx.at i => (pyIndex s.length i).bind fun j => (s[j]?).map fun x => [x]
+    | Idx.slice a b c => (pySlice s.length a b c).map fun (ps : List Nat) => ps.filterMap fun j => s[j]?).map List.flatten
+
+/-- `compress(alignment, indices)` -/
+def patternsIdx (size : Nat) (taxa : List String) (seqs : List (String × List Char)) (idx : Option (List Idx)) :
+    Option (List (Column × Nat)) :=
+  match idx with
+  | none => some (patterns size taxa seqs)
+  | some ix =>
+    ((sortSeqs taxa seqs).mapM fun s => selectCols ix (splitSyms size s.2)).map fun rows => compress (columns rows)
+
+/-- the pattern a site belongs to: position of its column among the pattern keys -/
+def patternOf {C : Type} [DecidableEq C] [LT C] [DecidableLT C] (cols : List C) (j : Nat) : Option Nat :=
+  (cols[j]?).map fun c => ((compress cols).map (·.1)).idxOf c
+
+/-! ### tip vector / tip state of a symbol, by data type -/
+
+inductive DT where
+  | nuc
+  | aa
+  | codon (table : List Nat)
+  | general (codes : List Sym) (ambs : List (Sym × List Sym))
+
+def symPartialDT (dt : DT) (useAmb : Bool) (s : Sym) : Option (List Nat) :=
+  match dt, s with
+  | .nuc, [c] => nucPartial useAmb c
+  | .aa, [c] => aaPartial useAmb c
+  | .codon t, s => codonPartial t (s.map Char.toNat)
+  | .general cs am, s => generalPartial cs am s
+  | _, _ => none
+
+def symTipStateDT (dt : DT) (s : Sym) : Option Nat :=
+  match dt, s with
+  | .nuc, [c] => nucTipState c
+  | .aa, [c] => aaTipState c
+  | .codon t, s => codonTipState t (s.map Char.toNat)
+  | .general cs am, s => some (min (generalEncoding cs am s) cs.length)
+  | _, _ => none
+
+/-- tip vector of a one-character symbol -/
+def symPartial (aa : Bool) (useAmb : Bool) : Sym → Option (List Nat) :=
+  symPartialDT (if aa then .aa else .nuc) useAmb
+
+def symTipState (aa : Bool) : Sym → Option Nat := symTipStateDT (if aa then .aa else .nuc)
 
 end TT.C01
